@@ -39,6 +39,8 @@ pub struct Pool {
     rx: Receiver<(usize, u64, Option<String>)>,
     next_generation: u64,
     pub respawns: u64,
+    /// stop dispatching new jobs of a batch once this many jobs went over their CPU budget
+    pub max_timeouts: usize,
 }
 
 impl Pool {
@@ -53,6 +55,7 @@ impl Pool {
             rx,
             next_generation: 0,
             respawns: 0,
+            max_timeouts: usize::MAX,
         };
         for i in 0..n {
             let w = p.spawn(i);
@@ -119,9 +122,10 @@ impl Pool {
         let t0 = Instant::now();
         let mut next = 0usize;
         let mut outstanding = 0usize;
+        let mut timeouts_seen = 0usize;
         loop {
             // dispatch
-            let capped = t0.elapsed() > wall_cap;
+            let capped = t0.elapsed() > wall_cap || timeouts_seen >= self.max_timeouts;
             if !capped {
                 for i in 0..self.workers.len() {
                     if next >= jobs.len() {
@@ -217,6 +221,7 @@ impl Pool {
                     let b = self.workers[i].busy.take().unwrap();
                     outstanding -= 1;
                     self.respawn(i);
+                    timeouts_seen += 1;
                     on_result(b.job, JobResult::Timeout { cpu_s: cpu });
                 }
             }
